@@ -31,21 +31,35 @@ var errInjectedWrite = errors.New("injected write failure: no space left on devi
 // faultReader delivers data in chunks of at most Chunk bytes and starts failing at
 // byte offset FailAt (FailAt > len(data): never). Together: the error is returned
 // together with the last bytes before the offset (legal io.Reader behaviour).
+// temporaryError: a read error of the kind a retrying wrapper would retry (net.Error-like: Temporary() and Timeout())
+type temporaryError struct{}
+
+func (temporaryError) Error() string   { return "verif: temporarily unavailable" }
+func (temporaryError) Temporary() bool { return true }
+func (temporaryError) Timeout() bool   { return true }
+
+var errTemporaryRead error = temporaryError{}
+
 type faultReader struct {
-	data     []byte
-	pos      int
-	FailAt   int
-	Chunk    int
-	Together bool
-	Failed   bool
+	// Transient: the read at FailAt fails once, with an error that calls itself temporary; later reads succeed
+	Transient bool
+	data      []byte
+	pos       int
+	FailAt    int
+	Chunk     int
+	Together  bool
+	Failed    bool
 }
 
 func (r *faultReader) Read(p []byte) (int, error) {
 	if len(p) == 0 {
 		return 0, nil
 	}
-	if r.pos >= r.FailAt && r.FailAt <= len(r.data) {
+	if r.pos >= r.FailAt && r.FailAt <= len(r.data) && !(r.Transient && r.Failed) {
 		r.Failed = true
+		if r.Transient {
+			return 0, errTemporaryRead // (the next read goes on: EINTR, EAGAIN, an expired deadline that was extended)
+		}
 		return 0, errInjectedRead
 	}
 	if r.pos >= len(r.data) {
